@@ -4,6 +4,11 @@ import json, os, subprocess
 V = os.path.dirname(os.path.abspath(__file__))
 
 CHECKS = {
+ 'C19': dict(cat='model_checking', tech='exhaustive replay of the bounded shape corpora on 14 differently built copies of the real library; differential oracle against the primary configuration',
+             text='The octet-string level corpora of the functional checks (every length / level / alphabet class within their bounds) are executed by each configuration of the build matrix '
+                  '(64/32-bit words, SAFE/SAFE_FAST, NDEBUG on/off, -O0/-O1/-O2/-O3, gcc/clang, BASH_64/32/SSE2/AVX2/AVX512) and the digest of (err_t, outputs) must equal the primary configuration '
+                  'for every case; word-level functions are compared with exact integers in both word sizes by C05/C06.',
+             note='trusted: the compilers; B_PER_W=32 on the LP64 ABI stands for the 32-bit configuration (no 32-bit libc here)', ref='4/C19'),
  'C15': dict(cat='fault_enumeration', tech='deallocator monitor (link-time --wrap) over every exit of every secret-taking call: success, authentication failure and each enumerated allocation-fault index',
              text='Every block handed back to the allocator during a secret-taking high-level call is snapshotted at the moment of release and scanned for 8-octet windows of the secret inputs, their '
                   'expanded forms (belt key schedule, HMAC ipad/opad, hashed long keys) and module-specific derived secrets, on the success exit, on authentication-failure exits and on every '
